@@ -372,6 +372,14 @@ func charsTested(fn *ssa.Function) map[int64]bool {
 					}
 				}
 			case *ssa.Call:
+				// a character handed to a helper of the package that tests for it (skipByte(s, i, '-'))
+				if sc := staticCallee(x); sc != nil && inRepo(sc) {
+					for _, a := range x.Call.Args {
+						if k, ok := constInt(a); ok && isByteOrRune(a.Type()) {
+							seen[k] = true
+						}
+					}
+				}
 				if sc := staticCallee(x); sc != nil && sc.Pkg != nil && (sc.Pkg.Pkg.Path() == "strings" || sc.Pkg.Pkg.Path() == "bytes" || sc.Pkg.Pkg.Path() == "unicode") {
 					for _, a := range x.Call.Args {
 						if str, ok := constString(a); ok {
